@@ -19,6 +19,7 @@ from lib import templates as T
 from lib import projects as PJ
 
 D = T.DIMS
+CONSUMERS = D["consumer"] + ["modattr"]     # + `from pkg import _impl; B = _impl.X`
 
 
 def hierarchy_by_site(s):
@@ -33,8 +34,27 @@ def hierarchy_by_site(s):
     return out
 
 
-def check_schedule(kw, si):
-    sources, exporter, newname = T.gen(**kw)
+def only_unresolved_differs(s0, s1):
+    """the two models differ only in that some base is unresolved (None) in one and resolved in the other - never in WHICH object
+    a name resolves to (that would be a different defect than the recorded one)"""
+    from pydoctor import model
+    for k in set(s0.allobjects) | set(s1.allobjects):
+        a, b = s0.allobjects.get(k), s1.allobjects.get(k)
+        if a is None or b is None or type(a).__name__ != type(b).__name__:
+            return False
+        if isinstance(a, model.Class):
+            if len(a.baseobjects) != len(b.baseobjects):
+                return False
+            for x, y in zip(a.baseobjects, b.baseobjects):
+                if x is not None and y is not None and x.fullName() != y.fullName():
+                    return False
+        elif (str(a.kind), a.docstring) != (str(b.kind), b.docstring):
+            return False
+    return True
+
+
+def check_schedule(kw, si, shadow=False):
+    sources, exporter, newname = T.gen(shadow=shadow, **kw)
     scheds = T.schedules(sources)
     if si >= len(scheds) or si == 0:
         return True
@@ -52,11 +72,18 @@ def check_schedule(kw, si):
         return True
     diff = sorted(k for k in set(d0) | set(d1) if d0.get(k) != d1.get(k))
     moved = exporter is not None and not (kw["reexp"] == "pkg_star" and kw["origin_all"] == "without") and kw["origin_all"] != "with"
-    if moved and kw["consumer"] in ("old", "both", "modalias"):
+    if moved and kw["consumer"] in ("old", "both", "modalias", "modattr") and only_unresolved_differs(s0, s1):
         key = "C06:consumer-naming-the-defining-module-of-a-moved-object-resolves-only-if-processed-first"
         if known(key):
             return True
         note(why="documented model depends on the processing order", key=key, shape=kw, order0=scheds[0], order=scheds[si], differing=diff[:6],
+             base={k: d0.get(k) for k in diff[:3]}, other={k: d1.get(k) for k in diff[:3]})
+        return False
+    if shadow and kw["cycle"] and kw["consumer"] in ("modalias", "modattr", "old", "both"):
+        key = "C06:import-cycle-while-a-star-imported-name-is-not-yet-overridden-base-resolves-to-the-shadowed-object"
+        if known(key):
+            return True
+        note(why="class hierarchy of a cyclic project depends on the processing order", key=key, shape=kw, order0=scheds[0], order=scheds[si], differing=diff[:6],
              base={k: d0.get(k) for k in diff[:3]}, other={k: d1.get(k) for k in diff[:3]})
         return False
     if kw["cycle"] and exporter == "pkg.api" and kw["consumer"] in ("new", "both"):
@@ -72,31 +99,34 @@ def check_schedule(kw, si):
 
 
 def _parts():
-    return [[r, c, d] for r in range(len(D["reexp"])) for c in range(1, len(D["consumer"])) for d in range(len(D["dup"]))]
+    return [[r, c, d] for r in range(len(D["reexp"])) for c in range(1, len(CONSUMERS)) for d in range(len(D["dup"]))]
 
 
 @harness(
     parts=_parts, timeout=(240, 1800), cls="E", tracing="concrete-after-choice", twin="first",
     code=["pydoctor.model.System.process/processModule/getProcessedModule", "pydoctor.astbuilder.ModuleVistor._importNames/_importAll (on-demand processing)",
           "pydoctor.model.compute_mro (second pass)", "pydoctor.model.Documentable.reparent", "pydoctor.model.System.postProcess"],
-    bounds={"quick": "template shapes with a consumer module (re-export form x consumer form x duplicate form x kind x nested x origin __all__ x cycle; local definition none) x every reachable schedule (<= 6 with a sibling exporter, 2 otherwise)",
+    bounds={"quick": "template shapes with a consumer module (re-export form x consumer form x duplicate form x kind x nested x origin __all__ x cycle; local definition none) x every reachable schedule (<= 6 with a sibling exporter, 2 otherwise); plus, for the plain shapes, a defining module that first star-imports another X from pkg._base (<= 24 schedules)",
             "thorough": "adds local definition before/after"},
     outside="projects outside the template; real packages; more than 4 modules",
 )
-def h_schedule(xkind: int, nested: bool, origin_all: int, cycle: bool, local_def: int, si: int) -> bool:
+def h_schedule(xkind: int, nested: bool, origin_all: int, cycle: bool, local_def: int, si: int, shadow: bool) -> bool:
     """
-    pre: 0 <= xkind <= 1 and 0 <= origin_all <= 2 and 0 <= si <= 5 and 0 <= local_def <= 2
+    pre: 0 <= xkind <= 1 and 0 <= origin_all <= 2 and 0 <= si <= 23 and 0 <= local_def <= 2
     pre: FULL or local_def == 0
+    pre: shadow or si <= 5
+    pre: FULL or not shadow or (not nested and origin_all == 0)
     post: _
     """
     ri, ci, di = PART if PART is not None else [1, 1, 0]
     kw = dict(xkind=D["xkind"][pick(xkind, 0, 1)], dup=D["dup"][di], nested=pickb(nested), reexp=D["reexp"][ri],
-              origin_all=D["origin_all"][pick(origin_all, 0, 2)], local_def=D["local_def"][pick(local_def, 0, 2)], consumer=D["consumer"][ci], cycle=pickb(cycle))
-    si = pick(si, 0, 5)
+              origin_all=D["origin_all"][pick(origin_all, 0, 2)], local_def=D["local_def"][pick(local_def, 0, 2)], consumer=CONSUMERS[ci], cycle=pickb(cycle))
+    si = pick(si, 0, 23)
+    shadow = pickb(shadow)
     if not T.valid(kw):
         return True
     with NoTracing():
-        ok = check_schedule(kw, si)
+        ok = check_schedule(kw, si, shadow)
     return done(ok)
 
 
